@@ -27,7 +27,7 @@ CHECKS['C16'] = {
         'PDH sizes above 10^12 and negative capacities are not generated',
     ],
     'units': [
-        unit('choose', 'dispatchcloud_c16', '^TestVerifC16Choose$', {'shards': 8, 'checks': 3000}, {'shards': 16, 'checks': 450000, 'timeout': 3000}),
-        unit('order', 'scheduler_c16', '^TestVerifC16Order', {'shards': 8, 'checks': 3000}, {'shards': 16, 'checks': 300000, 'timeout': 3000}),
+        unit('choose', 'dispatchcloud_c16', '^TestVerifC16Choose$', {'shards': 8, 'checks': 6000}, {'shards': 16, 'checks': 450000, 'timeout': 3000}),
+        unit('order', 'scheduler_c16', '^TestVerifC16Order', {'shards': 8, 'checks': 6000}, {'shards': 16, 'checks': 300000, 'timeout': 3000}),
     ],
 }
